@@ -266,7 +266,9 @@ def run_job(job, rec):
                 ictx = {**ctx, "fraction": f, "interval": [a, b]}
                 track(name + ":interval_mass", (cb - ca) - f)
                 track(name + ":interval_density", abs(pa - pb) / P.peak)
-                ok_mass = a < b and abs((cb - ca) - f) <= 1e-4
+                # (the search stops when its cost, the squared mass error plus the density term, is settled to 1e-10; for fractions of
+                #  the order of 1e-4 an absolute bound says nothing, hence the relative one)
+                ok_mass = a < b and abs((cb - ca) - f) <= min(3e-5, 0.05 * f)
                 if not ok_mass and bracket_only and a < b and abs((cb - ca) - f) <= 1e-2:
                     # the interval search is centred on and weighted by the reported mode; where that mode is the recorded known finding
                     # (best point of its bracket, peak outside) the search stalls next to it: same mechanism, same finding
